@@ -319,7 +319,7 @@ const vSM1 = `
 interface Node { id: ID! }
 type Human implements Node { id: ID! name: String! }
 type Query { node(id: ID!): Node me: Human ping: String }
-type Mutation { saveHuman(name: String!): Human! promote(id: ID!): Human! ping: String }
+type Mutation { saveHuman(name: String!): Human! promote(id: ID!): Human! ping: String dropHuman(name: String!): Human purge: [Human!]! }
 `
 const vSM2 = `
 interface Node { id: ID! }
@@ -337,6 +337,8 @@ func vMutationWorld() *vWorld {
 	w.roots["Mutation.promote"] = vRef{"Human", "h1"}
 	w.roots["Mutation.savePhone"] = vRef{"Human", "h1"}
 	w.roots["Mutation.bump"] = verifInt("bump", 0, 9)
+	w.roots["Mutation.dropHuman"] = nil
+	w.roots["Mutation.purge"] = []vRef{}
 	return w
 }
 
@@ -357,6 +359,11 @@ func vMutationOps() []vMutOp {
 		{q: `mutation M($n: String!) { saveHuman(name: $n) { id phone } bump }`, roots: []string{"saveHuman", "bump"}},
 		// a client variable that happens to be called id (the name the executor uses for node lookups)
 		{q: `mutation($id: ID!) { promote(id: $id) { name phone } }`, roots: []string{"promote"}},
+		// the mutation answers null / an empty list where another service's fields would be stitched in
+		{q: `mutation { dropHuman(name: "x") { name phone } }`, roots: []string{"dropHuman"}},
+		{q: `mutation { purge { name phone } bump }`, roots: []string{"purge", "bump"}},
+		// __typename of the root next to the mutation (answered by the gateway itself)
+		{q: `mutation { __typename saveHuman(name: "x") { name phone } }`, roots: []string{"saveHuman"}},
 		// two different documents under one operation name
 		{q: `mutation Save { saveHuman(name: "x") { name } }`, roots: []string{"saveHuman"}, sibling: `mutation Save { bump }`},
 		{q: `mutation Save { bump }`, roots: []string{"bump"}, sibling: `mutation Save { saveHuman(name: "x") { name } }`},
@@ -403,6 +410,9 @@ func VerifMutations() {
 	f := vNewFed(vMutationWorld(), opts, vSM1, vSM2)
 	// fault injection: one downstream call of one service fails (or none)
 	faultSvc := verifChoice("faultsvc", 3) // 0: none, 1: svc0, 2: svc1
+	if verifParam("healthyonly", 0) == 1 {
+		verifAssume(faultSvc == 0)
+	}
 	faultCall := 0
 	if faultSvc != 0 {
 		faultCall = verifChoice("faultcall", 2)
